@@ -773,6 +773,10 @@ func Select(a, i *Term) *Term {
 	if a.Op == "constarr" || a.Op == "constarr2" {
 		return a.Args[0]
 	}
+	if a.Op == "ite" && i.Op == "c" {
+		// a read at a concrete index distributes over a conditional array
+		return Ite(a.Args[0], Select(a.Args[1], i), Select(a.Args[2], i))
+	}
 	if i.Op != "c" && a.Op == "store" && !a.S.A2 {
 		if t := selectConstChain(a, i); t != nil {
 			return t
